@@ -106,6 +106,23 @@ pub fn programs(thorough: bool) -> Vec<Program> {
                     });
                 }
             }
+            // one retirement pass holding BOTH the generation a reader has pinned and another key's
+            // reader-free generation: the pass writes markers for the second while the first must wait
+            for (rn, r) in readers.iter().take(if thorough { 4 } else { 2 }) {
+                for (wn, w) in &writers {
+                    let mut wf = w.clone();
+                    wf.push(Op::Delete { k: U, ts: 0 });
+                    wf.push(Op::Flush);
+                    v.push(Program {
+                        name: format!("read-vs-pass:{}{}:{rn}|{wn};delete-other;flush", if cache { "cache" } else { "nocache" }, if two_block { "-2blk" } else { "-1blk" }),
+                        cfg: small(cache, false, blocks + 2),
+                        tables: t.clone(),
+                        setup: vec![ins(K, kv), ins(U, uv), Op::Flush],
+                        threads: vec![vec![*r], wf],
+                        observe: vec![K, U],
+                    });
+                }
+            }
             // counter key: increment racing with flush of a previous increment
             if !two_block {
                 v.push(Program {
